@@ -398,15 +398,59 @@ SPLITS = {   # heavy analyses are case-split by the order pattern of these expre
 FIFO = ('F7-sizeNone-', 'F7-buffer-into-batcher-sizeNone')
 
 
+LINE_PROPS = ['C02', 'C03', 'C05', 'C06', 'C08', 'C11', 'C13', 'C15', 'C16', 'C17']   # C04 needs pure serial lines
+OWN_MONITORS = {'C02': ['census'], 'C03': ['wakeup'], 'C05': ['buffer'], 'C06': ['cycle'], 'C08': ['routing'], 'C11': ['resource'],
+                'C13': ['uptime'], 'C15': ['data'], 'C16': ['value'], 'C17': ['batch']}
+
+
+def _applicable(prop, spec):
+    kinds = {d['k'] for d in spec['devices']}
+    if prop == 'C05':
+        return 'buffer' in kinds
+    if prop == 'C11':
+        return any(d.get('res') for d in spec['devices'])
+    if prop == 'C13':
+        return 'proc' in kinds
+    if prop == 'C17':
+        return 'batcher' in kinds
+    if prop == 'C08':
+        return True
+    return 'source' in kinds
+
+
+def _cross_pool(prop):
+    """Thorough tier: the quick models of every *other* device-level property, run with this property's monitors."""
+    import json
+    out, seen = [], set()
+    for s in _subs('thorough', prop) + _subs('quick', prop):
+        seen.add(json.dumps(s['shape']['spec'], sort_keys=True))
+    for other in LINE_PROPS:
+        if other == prop:
+            continue
+        for s in _subs('quick', other):
+            spec = s['shape']['spec']
+            key = json.dumps(spec, sort_keys=True)
+            if key in seen or not _applicable(prop, spec):
+                continue
+            seen.add(key)
+            t = dict(s, name=f'x{other}:' + s['name'], shape=dict(s['shape'], monitors=OWN_MONITORS[prop]))
+            out.append(t)
+    return out
+
+
 def jobs(tier, prop):
     subs = []
-    for s in _subs(tier, prop):
+    own = _subs(tier, prop)
+    if tier == 'thorough' and prop in LINE_PROPS:
+        own = own + _cross_pool(prop)
+    for s in own:
         if tier == 'quick' and s['name'].startswith(FIFO):
             # un-batching into single parts at one instant: dozens of equal-time events; the tie-break order is fixed
             # (first created first) in these analyses so that the batch sizes can be explored exhaustively
             s = dict(s, name=s['name'] + '-fifo', weights='fifo')
-        if s['name'] in SPLITS:
-            subs += split_by_order(s, SPLITS[s['name']])
+        base = s['name'].split(':', 1)[-1] if s['name'].startswith('x') else s['name']
+        if base in SPLITS:
+            subs += split_by_order(s, SPLITS[base])
         elif prop == 'C04' and s['name'].endswith('zero[]'):
             # all times non-zero: split by the order pattern of neighbouring station times
             names = [p[0] for p in s['params']]
@@ -418,7 +462,10 @@ def jobs(tier, prop):
 
 
 def bounds_text(tier, prop):
-    return ('models: ' + '; '.join(s['name'] for s in _subs(tier, prop)) + ' -- serial lines Source -> stations -> Sink with the '
+    extra = ''
+    if tier == 'thorough' and prop in LINE_PROPS:
+        extra = f' + {len(_cross_pool(prop))} models of the other device-level properties (prefixed x<id>:) run with this property\'s monitors'
+    return ('models: ' + '; '.join(s['name'] for s in _subs(tier, prop)) + extra + ' -- serial lines Source -> stations -> Sink with the '
             'listed station kinds (H handler, P processor, B buffer), n = source part budget, fault/blocking operations at '
             'symbolic instants; all cycle times, delays and instants symbolic ints in [1, 10**6] unless named zero; every '
             'tie-break order (symbolic pairwise distinct weights) except in analyses whose name ends in -fifo')
